@@ -249,7 +249,64 @@ def _c01_constructed(st, inp, T, cs, viol, reader, res, eof_tail):
     _roundtrip(v, T, viol, reader, inp, res, eof_tail, "constructed")
 
 
+LONG_LENGTHS = (0, 1, 63, 64, 127, 128, 255, 256, 257, 300, 511, 512, 513, 1023, 1024, 1025, 4095, 4096, 4097, 65535, 65536, 65537)
+
+
+def long_values(mode, tier) -> JobResult:
+    """Values much longer than anything in the value alphabets (buffer-size boundaries of chunked readers/writers): terminated and counted
+    arrays of char / wchar / uint8 / uint16 with every length in LONG_LENGTHS, followed by a field."""
+    from dissect.cstruct import cstruct
+
+    res = JobResult()
+    lengths = LONG_LENGTHS if tier == "thorough" else [n for n in LONG_LENGTHS if n <= 1025 or n in (4096, 4097, 65536)]
+    text = ("struct TC { uint8 h; char s[]; uint32 v; }; struct TW { uint8 h; wchar s[]; uint32 v; }; struct TB { uint8 h; uint8 s[]; uint32 v; }; struct TU { uint8 h; uint16 s[]; uint32 v; };"
+            "struct NC { uint32 n; char s[n]; uint32 v; }; struct NW { uint32 n; wchar s[n]; uint32 v; }; struct NU { uint32 n; uint16 s[n]; uint32 v; };")
+    for endian in "<>":
+        bo = "little" if endian == "<" else "big"
+        for compiled in (False, True):
+            cs = cstruct(endian=endian)
+            cs.load(text, compiled=compiled)
+            for n in lengths:
+                body = bytes((i % 251) + 1 for i in range(n))
+                wide = b"".join(((b % 90) + 33).to_bytes(2, bo) for b in body)
+                u16 = b"".join((b + 256).to_bytes(2, bo) for b in body)
+                tail = (0x12345678).to_bytes(4, bo)
+                cases = {"TC": b"\x11" + body + b"\x00", "TB": b"\x11" + body + b"\x00", "TW": b"\x11" + wide + b"\x00\x00", "TU": b"\x11" + u16 + b"\x00\x00",
+                         "NC": n.to_bytes(4, bo) + body, "NW": n.to_bytes(4, bo) + wide, "NU": n.to_bytes(4, bo) + u16}
+                for tn, data in cases.items():
+                    data += tail
+                    res.evaluations += 1
+                    res.states += 1
+                    res.transitions += 3
+                    if n >= 64:
+                        res.nontrivial += 1
+                    case = {"long": tn, "length": n, "endian": endian, "compiled": compiled}
+                    T = getattr(cs, tn)
+                    try:
+                        st = io.BytesIO(data + b"\xee\xed")
+                        v = T(st)
+                        if st.tell() != len(data) or int(v.v) != 0x12345678 or len(v.s) != n:
+                            res.violations.append(Violation("long:parse", f"long:parse|{tn}", case, f"{tn} {endian} compiled={compiled} with {n} elements: consumed {st.tell()} of {len(data)}, v={int(v.v):#x}, len(s)={len(v.s)}"))
+                            continue
+                        out = v.dumps()
+                        if mode == "C02":
+                            if out != data:
+                                k = next((i for i in range(min(len(out), len(data))) if out[i] != data[i]), min(len(out), len(data)))
+                                res.violations.append(Violation("long:dump", f"long:dump|{tn}", case, f"{tn} {endian} compiled={compiled} with {n} elements: dumps has {len(out)} bytes (input {len(data)}), first difference at byte {k}"))
+                        else:
+                            st2 = io.BytesIO(out + b"\xee\xed")
+                            v2 = T(st2)
+                            if st2.tell() != len(out) or not lib_eq(v2, v) or not same(impl.norm(v2), impl.norm(v)):
+                                res.violations.append(Violation("long:roundtrip", f"long:roundtrip|{tn}", case, f"{tn} {endian} compiled={compiled} with {n} elements: parse(dumps(v)) consumed {st2.tell()} of {len(out)} or differs from v"))
+                    except Exception as e:  # noqa: BLE001
+                        res.violations.append(Violation("long:raises", f"long:raises|{tn}", case, f"{tn} {endian} compiled={compiled} with {n} elements: {impl.exc_sig(e)} {e!r}"))
+    res.samples.append({"long_values": "terminated / counted arrays of char, wchar, uint8, uint16", "lengths": list(lengths)[-10:]})
+    return res
+
+
 def run(mode, job) -> JobResult:
+    if job[0] == "long":
+        return long_values(mode, job[1])
     res = JobResult()
     tier, chunk = job
     for names in chunk:
@@ -260,10 +317,12 @@ def run(mode, job) -> JobResult:
 
 
 def replay(mode, case):
+    if "long" in case:
+        return [v for v in long_values(mode, "thorough").violations if v.case == case]
     res = JobResult()
     check_case(mode, tuple(case["atoms"]), case["endian"], case["align"], res, "thorough", only_input=case.get("input"))
     return res.violations
 
 
 def jobs(tier, chunk=40):
-    return [(tier, c) for c in defs.chunks(defs.space(tier, "main"), chunk)]
+    return [("long", tier)] + [(tier, c) for c in defs.chunks(defs.space(tier, "main"), chunk)]
